@@ -36,10 +36,10 @@ m = {
     },
     'engines': [{'name': 'tlc+pdverif', 'path': 'bin/check',
                  'serves_properties': [c['property_id'] for c in checks],
-                 'kind_free_text': 'TLA+ specifications under spec/ model-checked by TLC; TLC behaviours replayed into real pingcap/pd code by the Go harness (harness/, built from /repo with -tags verif) under storage-transaction gates; recorded real executions validated by TLC against monitor specifications'}],
+                 'kind_free_text': 'TLA+ specifications under spec/ model-checked by TLC; TLC behaviours replayed into real pingcap/pd code by the Go harness (harness/, built from /repo with -tags verif) under storage-transaction gates; recorded real executions validated by TLC against monitor / trace / oracle specifications; inductive invariants of four models discharged with Apalache (C03, C04, C14, C15)'}],
     'checks': checks,
     'not_applicable': na,
-    'notes': 'exit 2 = inconclusive (tool failure / timeout), never a violation. known_findings.json lists genuine defects that are reported as KNOWN-FINDING.',
+    'notes': 'exit 2 = inconclusive (tool failure / timeout), never a violation. known_findings.json lists genuine defects that are reported as KNOWN-FINDING (open) or were repaired by a fix: commit in /repo (fixed; suppresses nothing). DESIGN.md Part I describes what exists; bin/selftest shows that the monitors reject corrupted recordings; tools/seed_matrix.py runs the checks against the seeded changes under seeded/.',
 }
 json.dump(m, open(os.path.join(V, 'MANIFEST.json'), 'w'), indent=1)
 print('claimed', len(checks), 'not_applicable', len(na))
